@@ -105,6 +105,8 @@ use syn::{parse_macro_input, DeriveInput};
 mod feature;
 mod generator;
 mod parser;
+#[cfg(feature = "verif-trace")]
+mod verif_trace;
 
 /// Derive Macro for enums
 ///
